@@ -12,7 +12,17 @@ import (
 // section in which `completed` was read as false, with the mutex held exclusively: if the lock is
 // released in between (read lock, then upgrade), Complete can drain the callback list in the gap and
 // the callback registered afterwards is never run — a ThenCompose chain built on it never completes.
-func checkRegisterDecidedUnderLock(c *Ctx, lc *LockCtx, ta *ssa.Function) {
+func checkRegisterDecidedUnderLock(c *Ctx, lc *LockCtx, taRoot *ssa.Function, cbName string) {
+	// the registration may live in a helper of ThenAccept that runs under its lock (acceptLocked)
+	for _, ta := range deepFuncs(taRoot, 1) {
+		if checkRegisterIn(c, lc, ta, cbName) {
+			return
+		}
+	}
+	c.Undecided("register-atomic", "ThenAccept", "no registration (store to callback) found")
+}
+
+func checkRegisterIn(c *Ctx, lc *LockCtx, ta *ssa.Function, cbName string) bool {
 	isCompletedLoad := func(x ssa.Instruction) bool {
 		ld, ok := x.(*ssa.UnOp)
 		if !ok || ld.Op != token.MUL {
@@ -36,7 +46,7 @@ func checkRegisterDecidedUnderLock(c *Ctx, lc *LockCtx, ta *ssa.Function) {
 			return
 		}
 		fa, isFA := st.Addr.(*ssa.FieldAddr)
-		if !isFA || fieldOfAddr(fa).Name() != "callback" {
+		if !isFA || fieldOfAddr(fa).Name() != cbName {
 			return
 		}
 		n++
@@ -55,7 +65,5 @@ func checkRegisterDecidedUnderLock(c *Ctx, lc *LockCtx, ta *ssa.Function) {
 		c.Check("register-atomic", "completed-read+append-one-critical-section@ThenAccept", st, g && ns > 0 && ms.At(st) && excl,
 			"the callback is registered in a different critical section than the one in which the future was seen incomplete (or without the exclusive lock): a Complete that runs in between drains the list first and this callback is never called")
 	})
-	if n == 0 {
-		c.Undecided("register-atomic", "ThenAccept", "no registration (store to callback) found")
-	}
+	return n > 0
 }
